@@ -55,6 +55,10 @@ def c12_history(n, seed, procs):
     for it in range(n):
         rnd = random.Random(seed * 2203 + it)
         bseed = rnd.randint(0, 10 ** 6)
+        if it % 4 == 1:
+            # a LARGE program B (tens of samples per function, a hundred constraints): what is listed / truncated / batched
+            # by count must not change what is sent
+            while not cw.big_mode(bseed): bseed += 1
         env = dict(os.environ)
         r = subprocess.run([sys.executable, "-W", "ignore", os.path.join(HERE, "oracles.py"), "c12_fresh", str(bseed), "0", "1"],
                            capture_output=True, text=True, env=env)
@@ -98,6 +102,7 @@ def c12_history(n, seed, procs):
                     try: impl.run(l)
                     except Exception: pass
         verb = rnd.choice([0, 0, 1, 2])
+        if it % 4 == 1: verb = 2 - (it // 4) % 2       # large programs: verbosity 2 and 1 alternately
         buf = io.StringIO()
         try:
             with contextlib.redirect_stdout(buf):
